@@ -52,6 +52,11 @@ static void p_fail(const char *key, const char *fmt, ...) __attribute__((format(
 
 #define PFAIL(key, ...) do { p_fail(key, __VA_ARGS__); return -1; } while (0)
 
+/* Set by the harness before a frame's output is parsed: the class of the INPUT frame with respect to the
+ * field order of its units (see field_order_class() in C06_run.h).  It becomes the suffix of the field order
+ * key, so that the known cause and any other cause of the same symptom have different keys. */
+static const char *p_field_order_class = "[input class not set]";
+
 static unsigned p_rev8(unsigned c)
 {
         unsigned r = 0;
@@ -142,7 +147,10 @@ static int p_pes_packet(const struct h_cfg *c, const uint8_t *b, size_t n, size_
                 unsigned off = d[0] & 31;
                 unsigned frame_line = off ? (field ? 313 + off : off) : 0;
 #ifndef C06_NO_FIELD_ORDER_RULE  /* (debug builds only: lets the round trip show what the library demultiplexer makes of such a packet) */
-                if (field < cur_field) PFAIL("conformance: field_parity goes back from second to first field within a PES packet", "offset %zu id=%02x line_offset=%u", q, id, off);
+                if (field < cur_field) {
+                        char key[240]; snprintf(key, sizeof key, "conformance: field_parity goes back from second to first field within a PES packet %s", p_field_order_class);
+                        PFAIL(key, "offset %zu id=%02x line_offset=%u", q, id, off);
+                }
 #endif
                 if (sliced_kind != PK_RAW) {
                         if ((d[0] & 0xC0) != 0xC0) PFAIL("conformance: reserved bits before field_parity not '11'", "offset %zu id=%02x byte=%02x", q, id, d[0]);
